@@ -92,14 +92,14 @@ const WORDS: &[&str] = &[
     "data", "set", "run", "var", "w", "zz", "Abc", "X", "Zip", "Zone", "allvar", "nulldataset", "corresponding", "Q",
     "abcdefghijklmnopqrstuvwxyzabcdefg", "v234567890123456789012345678901234567890123456789012345678901234",
 ];
-const UWORDS: &[&str] = &["é1", "дата", "名前", "ünï"];
+const UWORDS: &[&str] = &["é1", "дата", "名前", "ünï", "café", "année", "schluß", "x_数据", "größe", "z9é", "v𝒳1"];
 const MNAMES: &[&str] = &[
-    "m1", "mac_a", "u2x", "do_it", "calc1", "m_2", "util9", "x_y", "Zap", "zed_1", "Q", "mbcdefghijklmnopqrstuvwxyzabcdefg", "_n", "_sfx1", "__",
+    "m1", "mac_a", "u2x", "do_it", "calc1", "m_2", "util9", "x_y", "Zap", "zed_1", "Q", "mbcdefghijklmnopqrstuvwxyzabcdefg", "_n", "_sfx1", "__", "größe", "макрос", "счёт_1", "mé", "m数据",
     "n234567890123456789012345678901234567890123456789012345678901234",
 ];
 const FUNCS: &[&str] = &["sum", "max", "cats", "putn", "inputn", "today", "substr"];
 const LABELS: &[&str] = &[
-    "lbl1", "out_1", "skip2", "l_x", "Zlab", "lbcdefghijklmnopqrstuvwxyzabcdefg", "l2345678901234567890123456789012",
+    "lbl1", "out_1", "skip2", "l_x", "Zlab", "étiq1", "lbl_ü", "lbcdefghijklmnopqrstuvwxyzabcdefg", "l2345678901234567890123456789012",
     "l234567890123456789012345678901234567890123456789012345678901234",
 ];
 
@@ -184,8 +184,25 @@ impl G<'_> {
             self.r.pick(WORDS)
         }
     }
+    /// a macro name for `%macro` / `%mend` / `%copy`: the definition-name scanner is ASCII-only by
+    /// design (a non-ASCII letter ends the name there), calls accept any XID identifier
+    fn def_name(&mut self) -> &'static str {
+        loop {
+            let n = self.r.pick(MNAMES);
+            if n.is_ascii() {
+                return n;
+            }
+        }
+    }
+    /// a name for places where SAS wants an identifier (argument / parameter / variable names):
+    /// mostly ASCII, now and then a name whose first or later letters are not (the lexer accepts
+    /// every XID identifier; byte and character lengths differ there)
     fn ascii_word(&mut self) -> &'static str {
-        self.r.pick(WORDS)
+        if self.cfg.unicode && self.r.chance(1, 16) {
+            self.r.pick(UWORDS)
+        } else {
+            self.r.pick(WORDS)
+        }
     }
 
     /// optional insignificant blank / LF / C comment. `comments`: C comments allowed here.
@@ -1641,7 +1658,7 @@ impl G<'_> {
         self.in_macro += 1;
         self.kw("%macro");
         self.blank();
-        let name = self.r.pick(MNAMES);
+        let name = self.def_name();
         self.put(name);
         if self.r.chance(2, 3) {
             self.p.kinds.insert("%macro-params");
@@ -1655,7 +1672,7 @@ impl G<'_> {
             self.top_level = false;
             for i in 0..n {
                 self.pad("before-arg", true);
-                let w = self.ascii_word();
+                let w = self.r.pick(WORDS) /* parameter names of a definition are ASCII-only */;
                 self.put(w);
                 if self.r.chance(1, 2) {
                     self.pad("before-assign", true);
@@ -1753,7 +1770,7 @@ impl G<'_> {
             5 => {
                 self.kw("%copy");
                 self.blank();
-                { let t__ = self.r.pick(MNAMES); self.put(t__) };
+                { let t__ = self.def_name(); self.put(t__) };
                 self.pad("before-slash", true);
                 let pos = self.pos();
                 self.put("/");
@@ -2016,7 +2033,7 @@ pub fn gen_stmt_for_deletion(r: &mut Rng, cfg: Cfg) -> Prog {
             g.enter("%copy");
             g.kw("%copy");
             g.blank();
-            { let t__ = g.r.pick(MNAMES); g.put(t__) };
+            { let t__ = g.def_name(); g.put(t__) };
             let prev_end = g.pos();
             let p1 = g.pad("before-slash", true);
             let pos = g.pos();
